@@ -60,12 +60,18 @@ def search(ctx):
     define / test / expand one macro under every directive"""
     out = []
     variants = ["plain", "state", "pp-guard", "pp-macros", "pp-version", "unbounded", "reserved-matrix", "reserved-cb",
-                "reserved-kernel", "reserved-cb-main", "reserved-double", "entry-texture", "typedef-array",
+                "reserved-kernel", "reserved-cb-main", "reserved-double", "entry-texture", "typedef-array", "nonresource", "nonresource-rq",
                 "e-pp-if", "e-parse-mid", "e-type-undef-mid", "e-pipe-entry", "layout-trap", "include", "api-define"]
     for seed in range(1, 40):
         for v in variants:
             out.append(f"C18.cross\t{seed * 7919}\t{v}\t\t\t")
     toks = ["a", "X", "__HLSL_VERSION", "1"]
+    for t in ("dx", "msl"):
+        # the branch discipline of one #if block (fix 03ca601: nothing follows the #else branch)
+        for tail in ("ELSE ;; T b ;; ELSE ;; T c", "ELSE ;; T b ;; ELIF 1 ;; T c", "ELIF 1 ;; T b ;; ELSE ;; T c",
+                     "ELIF 0 ;; T b ;; ELIF 1 ;; T c"):
+            for c0 in ("0", "1"):
+                out.append(f"C18.pp\t{t}\t\tIF {c0} ;; T a ;; {tail} ;; ENDIF")
     conds = ["X", "defined ( X )", "! defined ( X )", "__HLSL_VERSION == 2021", "( X ) && 1", "X == 1 || a"]
     for t in ("dx", "vk", "vkba", "msl"):
         for c in conds:
@@ -81,11 +87,12 @@ SPEC = {
     "lean_modules": ["RsslVerif.Thm.C18"],
     "theorems": [T + n for n in [
         "unmentioned_define_irrelevant", "target_dependent_names", "frontend_target_independent",
-        "target_reads_covered", "targets_share_front_end",
+        "target_reads_covered", "targets_share_front_end", "no_branch_after_else",
         "expand_fuel_irrelevant",
         "build_shape_as_modelled", "dx_vk_same_stage_reports", "all_targets_same_stage_kinds_sizes",
         "dx_vk_declarations_differ_only_in_annotations_partial", "dx_register_vk_binding",
         "descriptor_tables_equal", "kind_count_from_declaration", "binding_kinds_counts_shared", "dx_vk_bindings_shared",
+        "reflected_kinds_are_resources", "non_resource_global_refused_on_every_target",
         "binding_names_kinds_counts_shared_partial", "binding_names_not_shared",
         "simplify_cbuffers_as_modelled", "msl_reflects_simplified_module", "kinds_counts_shared_through_simplify",
         "bindings_shared_through_simplify_partial", "cbuffer_block_one_binding_everywhere",
